@@ -2,10 +2,13 @@
 Tie A: tf.GradientTape gradients through kfl_lib.custom_reduce_prod (exact zeros planted in every pattern,
 every reduction axis) vs Tfl.Kfl.gradFactor / rprod.
 Tie B: gradients of kfl_lib.evaluate_with_hypercube_interpolation w.r.t. kernel, scale, inputs vs autodiff of
-the same expression written with tf.reduce_prod (reference expression).
-Tie C: Jacobians d out / d kernel of the real Lattice (hypercube + simplex) / PWLCalibration /
-CategoricalCalibration layers vs interpolation weights computed independently in numpy; the layer output
-vs Tfl.Kfl.dot weights kernel (the generic linear form C19-T2 is stated for).
+the same expression written with tf.reduce_prod (reference expression) AND vs the model's assembled gradients
+Tfl.Kfl.gradKernel / gradScale / gradInput (driver op kfl.evalgrad; Props/C19Kfl.lean proves them to be the
+derivatives of Tfl.Kfl.eval), inputs only where the output is differentiable (strictly inside a cell).
+Tie C: Jacobians d out / d kernel of the real Lattice (hypercube + simplex, clip_inputs on AND off) /
+PWLCalibration / CategoricalCalibration layers vs interpolation weights computed independently in numpy and,
+for Lattice, vs the model's weight rows (late.weights / late.sjac) and outputs (late.hyper / late.simplex);
+PWL / categorical outputs vs Tfl.Kfl.dot weights kernel (the generic linear form C19-T2 is stated for).
 Oracle: gradient == plain-product derivative; Jacobian == weights, independent of the kernel value,
 non-negative and summing to one for Lattice."""
 import itertools
@@ -16,11 +19,19 @@ from common import *
 RULE = ("A: tensors of rank 1-4, reduced axis of length 1-5 at every position, entries dyadic/int/wide/tiny, "
         "0/1/2/3/all zeros planted on the reduced axis (incl. -0.0), incoming gradient 1 or random; "
         "B: KFL configs (sizes 2-4, dims 1-4, units 1-2, terms 1-3) with zero kernel columns and inputs on "
-        "vertices so that factors vanish exactly; C: Lattice ranks 1-4 sizes 2-4 units 1-2 both interpolations, "
+        "vertices so that factors vanish exactly, per-example model gradients; C: Lattice ranks 1-4 sizes 2-4 units "
+        "1-2 both interpolations, clip_inputs on/off, points in range / clipped / unclipped out of range "
+        "(class outside:clip_off_out_of_range), "
         "PWL 2-7 keypoints, categorical 2-6 buckets incl. default bucket, two kernel values per case. "
         "Non-trivial = at least one zero on the reduced axis (A), a vanishing factor (B), a point strictly "
         "inside a cell (C); distinct = (suite, shape/zero pattern class, hash).")
 ASSUMPTIONS = [
+    "EXPLICIT EXCLUSION, class `outside:clip_off_out_of_range`: Lattice with clip_inputs=False and a coordinate outside "
+    "[0, size-1]. 'Non-negative, summing to one' is the convexity of the C02 interpolation weights of in-range or clipped "
+    "inputs; an unclipped out-of-range point is outside C02 and C19 (Props/C19.lean jacobian_row_convex_needs_defined: "
+    "rows [3/2, -1/2], sum 1/2). Such points ARE generated: the Jacobian is compared with the MODEL's weight row, must "
+    "not depend on the kernel, the InvalidArgumentError of the simplex gather must match the model; only the "
+    "numpy-reference and the convexity clause are not evaluated there (they are on every in-range / clipped point)",
     "custom_reduce_prod is float32-only (casts is_zero to float32): compared with rtol 1e-5 of the largest partial product",
     "autodiff itself (tape, chain rule) is TensorFlow's; what is checked is the hand-written grad_fn and the linearity in the kernel",
     "C19-T2 is stated for the generic form eval w K = dot w K over an abstract weight vector; the harness ties each real "
@@ -151,6 +162,7 @@ def run_b(ctx, n):
   import tensorflow as tf
   from tensorflow_lattice.python import kronecker_factored_lattice_lib as kfl_lib
   rng = ctx.rng
+  lines, items = [], []
   for _ in range(n):
     L = rng.choice([2, 3, 4])
     dims, U, T = rng.randint(1, 4), rng.randint(1, 2), rng.randint(1, 3)
@@ -182,6 +194,16 @@ def run_b(ctx, n):
     ctx.case(sig=(cls, U, T, clip, hash(kern.tobytes()) % 997), nontrivial=zero_cols > 0)
     case = dict(suite="kfl_grad", L=L, dims=dims, units=U, T=T, clip=clip, kernel=kern, scale=scale, x=x)
     key = dict(layer="kfl", what="end_to_end_gradient")
+    # per-example gradients (dy = e_b) of unit 0 for the comparison with the model's assembled gradients
+    b0 = rng.randrange(B)
+    e0 = np.zeros([B, U], dtype=np.float32)
+    e0[b0, 0] = 1.0
+    g1 = [tape.gradient(out, v, output_gradients=tf.constant(e0)) for v in (ks, ss, xs)]
+    g1 = [None if g is None else g.numpy() for g in g1]
+    rows = [kern[0, :, 0 * dims + dd, t] for t in range(T) for dd in range(dims)]
+    lines.append("kfl.evalgrad %d %d %d %s %s %s %s" % (L, int(clip), dims, frl2(rows), frl(scale[0]), fr(Fraction(float(bias[0]))),
+                                                       frl(x[b0, 0])))
+    items.append(dict(case=case, L=L, dims=dims, T=T, U=U, b0=b0, g1=g1, out=float(out.numpy()[b0, 0]), x=x[b0, 0]))
     sc = float(max(1.0, np.max(np.abs(kern)))) ** dims * max(1.0, float(np.max(np.abs(scale)))) * 4.0 * max(1.0, float(np.max(np.abs(x)))) ** dims
     if float(np.max(np.abs(out.numpy() - ref.numpy()))) > 1e-5 * sc:
       ctx.disagree("kfl.reference_expression", case, out.numpy().ravel(), ref.numpy().ravel(), "forward differs")
@@ -193,6 +215,36 @@ def run_b(ctx, n):
         ctx.agree("kfl.grad_" + name)
       else:
         ctx.fail("kfl_gradient_" + name, key, case, dict(got=a, want=b), "gradient w.r.t. %s differs from autodiff of the plain product" % name)
+  return lines, items
+
+
+def check_b(ctx, item, reply):
+  """real per-example gradients of unit 0 vs the model's gradKernel / gradScale / gradInput (Props/C19Kfl.lean)"""
+  L, dims, T, U, case = item["L"], item["dims"], item["T"], item["U"], item["case"]
+  toks = reply.split(" ")
+  if len(toks) != 4:
+    ctx.disagree("kfl.model_gradient", case, None, reply, "malformed")
+    return
+  kern, scale, x = case["kernel"], case["scale"], item["x"]
+  sc = float(max(1.0, np.max(np.abs(kern)))) ** dims * max(1.0, float(np.max(np.abs(scale)))) * 4.0 * max(1.0, float(np.max(np.abs(x)))) ** dims
+  ctx.compare("kfl.model_output", case, [item["out"]], [Fraction(toks[0])], sc, rtol=1e-5)
+  gk, gs, gx = item["g1"]
+  mk = parse_rats2(toks[1])                       # rows (t, d) term-major, each over the L vertices
+  if gk is not None:
+    real_rows = [gk[0, :, 0 * dims + dd, t] for t in range(T) for dd in range(dims)]
+    for r, m in zip(real_rows, mk):
+      ctx.compare("kfl.model_gradient.kernel", case, r, m, sc, rtol=1e-5)
+  if gs is not None:
+    # reduce_mean over terms: d out / d scale_t
+    ctx.compare("kfl.model_gradient.scale", case, gs[0], parse_rats(toks[2]), sc, rtol=1e-5)
+  if gx is not None:
+    gx0 = gx[item["b0"]] if U == 1 else gx[item["b0"], 0]
+    for dd, tok in enumerate(toks[3].split(",")):
+      if tok == "nan":
+        ctx.count("B:input-grad:not-differentiable-or-outside-range")
+        continue
+      ctx.count("B:input-grad:inside-cell")
+      ctx.compare("kfl.model_gradient.inputs", case, [gx0[dd]], [Fraction(tok)], sc, rtol=1e-5)
 
 
 # ------------------------------------------------------------------ C: Jacobian = interpolation weights
@@ -250,12 +302,16 @@ def run_c(ctx, n):
       rank = rng.randint(1, 4)
       sizes = [rng.randint(2, 4) for _ in range(rank)]
       interp = rng.choice(["hypercube", "simplex"])
-      layer = tfl.layers.Lattice(lattice_sizes=sizes, units=U, interpolation=interp, dtype=tf.float64)
-      xs = np.array([[[float(Fraction(rng.randint(-2, 8 * (s - 1) + 2), 8)) for s in sizes] for _ in range(U)] for _ in range(B)])
+      clip = rng.random() < 0.6
+      layer = tfl.layers.Lattice(lattice_sizes=sizes, units=U, interpolation=interp, clip_inputs=clip, dtype=tf.float64)
+      far = rng.random() < 0.35       # some coordinates clearly outside the range (clipped, or the excluded class)
+      xs = np.array([[[float(Fraction(rng.randint(-12 if far and rng.random() < 0.5 else -2,
+                                                   8 * (s - 1) + (12 if far and rng.random() < 0.5 else 2)), 8))
+                       for s in sizes] for _ in range(U)] for _ in range(B)])
       xin = tf.constant(xs[:, 0, :] if U == 1 else xs, dtype=tf.float64)
       wfun = (lambda x: hyper_weights(sizes, x)) if interp == "hypercube" else (lambda x: simplex_weights(sizes, x))
-      W = np.array([[wfun(xs[b, u]) for u in range(U)] for b in range(B)])        # (B, U, n)
-      cfg = dict(layer="lattice", sizes=sizes, interpolation=interp, units=U)
+      W = np.array([[wfun(xs[b, u]) for u in range(U)] for b in range(B)])        # (B, U, n): the CLIPPED point's weights
+      cfg = dict(layer="lattice", sizes=sizes, interpolation=interp, units=U, clip=clip)
       interior = bool(np.any((xs > 0) & (xs != np.floor(xs))))
     elif which == "pwl":
       nk = rng.randint(2, 7)
@@ -278,25 +334,56 @@ def run_c(ctx, n):
         W[b, :, nb - 1 if xs[b, 0] == -1 else xs[b, 0]] = 1.0
       cfg = dict(layer="categorical", num_buckets=nb, default_input_value=dflt, units=U)
       interior = True
-    layer(xin)  # build
+    if which == "lattice":
+      layer.build(xin.shape)
+    else:
+      layer(xin)  # build
     nkern = int(layer.kernel.shape[0])
-    Js, outs, kerns = [], [], []
+    Js, outs, kerns, errs = [], [], [], [[None] * U for _ in range(B)]
     for rep in range(2):
       kern = np.array([[float(gen_value(rng, rng.choice(["dyadic", "int"] if which == "cat" else ["dyadic", "int", "wide"])))
                         for _ in range(U)] for _ in range(nkern)])
       layer.kernel.assign(kern)
-      out, J = jac(tf, layer, xin)
-      if hasattr(J, "shape") and J.shape != (B, U, nkern, U):
+      try:
+        out, J = jac(tf, layer, xin)
         J = np.reshape(J, (B, U, nkern, U))
+        out = np.reshape(out, (B, U))
+      except Exception as e:
+        if which != "lattice":
+          raise
+        # one bad gather index (simplex, clip off, out of range) kills the batch: example by example
+        J, out = np.full((B, U, nkern, U), np.nan), np.full((B, U), np.nan)
+        for b in range(B):
+          for u in range(U):
+            # a batch of one example in which EVERY unit gets the point of unit u: only that point can raise
+            x1 = np.repeat(xs[b:b + 1, u:u + 1, :], U, axis=1)
+            try:
+              o1, J1 = jac(tf, layer, tf.constant(x1[:, 0, :] if U == 1 else x1, dtype=tf.float64))
+              J[b, u], out[b, u] = np.reshape(J1, (U, nkern, U))[u], np.reshape(o1, (U,))[u]
+            except Exception as e1:
+              errs[b][u] = classify_exc(e1)
       Js.append(J)
-      outs.append(np.reshape(out, (B, U)))
+      outs.append(out)
       kerns.append(kern)
     first = len(lines)
     for rep in range(2):
       for b in range(B):
         for u in range(U):
-          lines.append("kfl.lin %s %s" % (frl(W[b, u]), frl(kerns[rep][:, u])))
-    items.append(dict(cfg=cfg, xs=xs, W=W, Js=Js, outs=outs, kerns=kerns, first=first, nlines=len(lines) - first,
+          if which == "lattice":
+            if interp == "hypercube":
+              lines.append("late.hyper tensor %d %s %s %s" % (int(clip), il(sizes), frl(kerns[rep][:, u]), frl(xs[b, u])))
+            else:
+              lines.append("late.simplex %d %s %s %s" % (int(clip), il(sizes), frl(kerns[rep][:, u]), frl(xs[b, u])))
+          else:
+            lines.append("kfl.lin %s %s" % (frl(W[b, u]), frl(kerns[rep][:, u])))
+    if which == "lattice":
+      for b in range(B):
+        for u in range(U):
+          if interp == "hypercube":
+            lines.append("late.weights tensor %d %s %s" % (int(clip), il(sizes), frl(xs[b, u])))
+          else:
+            lines.append("late.sjac %d %s %d %s" % (int(clip), il(sizes), nkern, frl(xs[b, u])))
+    items.append(dict(cfg=cfg, xs=xs, W=W, Js=Js, outs=outs, kerns=kerns, errs=errs, first=first, nlines=len(lines) - first,
                       interior=interior, B=B, U=U))
   return lines, items
 
@@ -309,38 +396,88 @@ def check_c(ctx, item, replies):
   key = dict(layer=lay, what="jacobian")
   ctx.case(sig=(cls, str(cfg), hash(item["xs"].tobytes()) % 997), nontrivial=item["interior"], sample=dict(cfg=cfg, x=item["xs"]))
   case = dict(suite="jacobian", cfg=cfg, x=item["xs"])
+  errs = item.get("errs") or [[None] * U for _ in range(B)]
+  # in range or clipped <=> the property speaks about the point (only Lattice has the excluded class)
+  defined = np.ones((B, U), dtype=bool)
+  xmag = np.ones((B, U))
+  if lay == "lattice":
+    clip = cfg.get("clip", True)
+    for b in range(B):
+      for u in range(U):
+        inr = all(0.0 <= v <= s - 1 for v, s in zip(item["xs"][b, u], cfg["sizes"]))
+        defined[b, u] = clip or inr
+        ctx.count("C:scope:" + ("in_range" if inr else ("clipped" if clip else "outside:clip_off_out_of_range")))
+        if not defined[b, u]:
+          ctx.count("outside:clip_off_out_of_range")
+          xmag[b, u] = float(np.prod([1.0 + abs(v) for v in item["xs"][b, u]]))
   pos = 0
   for rep in range(2):
     J, out, kern = item["Js"][rep], item["outs"][rep], item["kerns"][rep]
     sc = max_abs(kern.ravel())
     for b in range(B):
       for u in range(U):
-        ctx.compare("linear_form.%s" % lay, dict(case, kernel=kern), [out[b, u]], [Fraction(replies[pos])], sc,
-                    rtol=1e-6 if lay == "categorical" else 1e-9)
+        m = replies[pos]
         pos += 1
+        if errs[b][u] is not None or m.startswith("ERR"):
+          # only reachable outside the property (simplex gather out of bounds); the error classes must agree
+          ctx.count("C:error:%s" % (m if m.startswith("ERR") else "real-only"))
+          if errs[b][u] == m:
+            ctx.agree("linear_form.%s" % lay)
+          else:
+            ctx.disagree("linear_form.%s" % lay, dict(case, kernel=kern), errs[b][u], m, "error class differs")
+          if defined[b, u]:
+            ctx.fail("raises", key, dict(case, kernel=kern), errs[b][u], "in-range / clipped input raises")
+          continue
+        ctx.compare("linear_form.%s" % lay, dict(case, kernel=kern), [out[b, u]], [Fraction(m)], sc * xmag[b, u],
+                    rtol=1e-6 if lay == "categorical" else 1e-9)
+        if not defined[b, u]:
+          continue      # numpy reference weights are those of the CLIPPED point: the clause is outside the property here
+        ctx.count("C:clause:jacobian_is_weights")
         for u2 in range(U):
           want = W[b, u] if u2 == u else np.zeros_like(W[b, u])
           if np.max(np.abs(J[b, u, :, u2] - want)) > 1e-9:
             ctx.fail("jacobian_is_weights", key, dict(case, kernel=kern), dict(jac=J[b, u, :, u2], weights=want, unit=u, wrt_unit=u2),
                      "d out / d kernel differs from the interpolation weights")
-  if np.max(np.abs(item["Js"][0] - item["Js"][1])) > 1e-9:
+  ok_rows = np.array([[errs[b][u] is None for u in range(U)] for b in range(B)])
+  # kernel-independence: everywhere the layer returns a value (also outside the property: the output is linear in the kernel)
+  if ok_rows.any() and np.nanmax(np.abs(item["Js"][0][ok_rows] - item["Js"][1][ok_rows])) > 1e-9 * float(np.max(xmag)):
     ctx.fail("jacobian_depends_on_kernel", key, case, dict(j0=item["Js"][0], j1=item["Js"][1]))
   if lay == "lattice":
     J = item["Js"][0]
     for b in range(B):
       for u in range(U):
-        if np.min(J[b, u, :, u]) < -1e-9 or abs(np.sum(J[b, u, :, u]) - 1.0) > 1e-9:
+        m = replies[pos]
+        pos += 1
+        if errs[b][u] is not None or m.startswith("ERR"):
+          if errs[b][u] != m:
+            ctx.disagree("lattice.jacobian_row", case, errs[b][u], m, "error class differs")
+          continue
+        # the real Jacobian row IS the model's weight row -- in range, clipped, and in the excluded class
+        ctx.compare("lattice.jacobian_row", dict(case, point=[b, u]), J[b, u, :, u], parse_rats(m), xmag[b, u], rtol=1e-9)
+        for u2 in range(U):
+          if u2 != u and np.max(np.abs(J[b, u, :, u2])) > 1e-9 * xmag[b, u]:
+            ctx.fail("jacobian_is_weights", key, case, dict(jac=J[b, u, :, u2], unit=u, wrt_unit=u2), "cross-unit Jacobian not zero")
+        bad = np.min(J[b, u, :, u]) < -1e-9 or abs(np.sum(J[b, u, :, u]) - 1.0) > 1e-9
+        if not defined[b, u]:
+          if bad:
+            ctx.count("outside:clip_off_out_of_range:would-violate-weights_simplex")
+          continue
+        ctx.count("C:clause:weights_simplex")
+        if bad:
           ctx.fail("weights_simplex", key, case, dict(jac=J[b, u, :, u]), "weights negative or not summing to one")
 
 
 def run(ctx):
   la, ia = run_a(ctx, ctx.n(250, 6000))
-  run_b(ctx, ctx.n(60, 1500))
-  lc, ic = run_c(ctx, ctx.n(60, 1500))
-  replies = run_driver(la + lc)
+  lb, ib = run_b(ctx, ctx.n(60, 1500))
+  lc, ic = run_c(ctx, ctx.n(140, 3000))
+  replies = run_driver(la + lb + lc)
   for it in ia:
     check_a(ctx, it, replies[it["first"]:it["first"] + it["nlines"]])
   off = len(la)
+  for k, it in enumerate(ib):
+    check_b(ctx, it, replies[off + k])
+  off += len(lb)
   for it in ic:
     check_c(ctx, it, replies[off + it["first"]:off + it["first"] + it["nlines"]])
 
@@ -375,7 +512,8 @@ def replay(ctx, failure):
     U = cfg["units"]
     kern = np.array(case.get("kernel")) if case.get("kernel") is not None else None
     if cfg["layer"] == "lattice":
-      layer = tfl.layers.Lattice(lattice_sizes=cfg["sizes"], units=U, interpolation=cfg["interpolation"], dtype=tf.float64)
+      layer = tfl.layers.Lattice(lattice_sizes=cfg["sizes"], units=U, interpolation=cfg["interpolation"],
+                                 clip_inputs=cfg.get("clip", True), dtype=tf.float64)
       xin = tf.constant(x[:, 0, :] if U == 1 else x, dtype=tf.float64)
       wf = (lambda v: hyper_weights(cfg["sizes"], v)) if cfg["interpolation"] == "hypercube" else (lambda v: simplex_weights(cfg["sizes"], v))
       W = np.array([[wf(x[b, u]) for u in range(U)] for b in range(x.shape[0])])
@@ -397,5 +535,10 @@ def replay(ctx, failure):
     J = np.reshape(J, (x.shape[0], U, -1, U))
     for b in range(x.shape[0]):
       for u in range(U):
+        if cfg["layer"] == "lattice" and not cfg.get("clip", True) and \
+            not all(0.0 <= v <= sz - 1 for v, sz in zip(x[b, u], cfg["sizes"])):
+          continue      # class outside:clip_off_out_of_range: the numpy reference (clipped point) does not apply
         if np.max(np.abs(J[b, u, :, u] - W[b, u])) > 1e-9:
           ctx.fail("jacobian_is_weights", dict(layer=cfg["layer"], what="jacobian"), case, dict(jac=J[b, u, :, u], weights=W[b, u]))
+        if cfg["layer"] == "lattice" and (np.min(J[b, u, :, u]) < -1e-9 or abs(np.sum(J[b, u, :, u]) - 1.0) > 1e-9):
+          ctx.fail("weights_simplex", dict(layer=cfg["layer"], what="jacobian"), case, dict(jac=J[b, u, :, u]))
